@@ -110,6 +110,12 @@ func genEnv(r *Rng, g *gCmd, consistent bool, distinct bool, small bool) string 
 				if pad%2 == 1 {
 					pad++
 				}
+			case "padIfPOdd":
+				// alignment of what follows the parameter block: (len(own parameter bytes)+3)%2, known when
+				// every parameter slot has a fixed width
+				if n, ok := fixedParamLen(g); ok && (n+3)%2 == 1 {
+					pad = 1
+				}
 			case "forCountInt", "forCountSub":
 				if consistent {
 					if e := pinnedRel(g.Name, s.F, nil); e != nil && e.K == "fint" {
@@ -213,10 +219,52 @@ func genEnv(r *Rng, g *gCmd, consistent bool, distinct bool, small bool) string 
 		}
 		parts = append(parts, f.Name+"="+vals[f.Name])
 	}
+	// 4. the AndX block of an AndX command, set through SetAndX in two cases out of three (otherwise Marshal
+	// creates the default one): any command byte, reserved mostly 0, offsets with equal and with different bytes
+	if g.IsAndX && r.Intn(3) != 0 {
+		cmd := r.Pick(0xFF, 0x04, 0x2e, 0x75, r.Intn(256))
+		rsv := 0
+		if r.Intn(4) == 0 {
+			rsv = r.Intn(256)
+		}
+		var off uint64
+		switch r.Intn(4) {
+		case 0:
+			b := uint64(r.Intn(256))
+			off = b<<8 | b // both bytes equal: byte order is invisible
+		case 1:
+			off = uint64(r.Pick(0, 1, 0x00ff, 0x0100, 0xff00, 0xffff))
+		default:
+			off = randIntBits(r, 16, distinct)
+		}
+		parts = append(parts, fmt.Sprintf("%s=l:%d,%d,%d", andxFieldName, cmd, rsv, off))
+	}
 	if len(parts) == 0 {
 		return "."
 	}
 	return strings.Join(parts, ";")
+}
+
+// length of the parameter bytes a command's own fields occupy, when every parameter slot has a fixed width
+func fixedParamLen(g *gCmd) (int, bool) {
+	n := 0
+	for _, s := range g.Marshal {
+		if s.Blk != "P" {
+			if len(s.Body) > 0 {
+				return 0, false
+			}
+			continue
+		}
+		switch s.Op {
+		case "int", "quad":
+			n += s.W
+		case "u8":
+			n++
+		default:
+			return 0, false
+		}
+	}
+	return n, true
 }
 
 func isCstr(g *gCmd, f string) bool {
